@@ -9,7 +9,7 @@ func coeffScope(pkg string) bool {
 
 func init() {
 	register("C04", []string{"./constraint/...", "./frontend/...", "./backend/groth16/..."}, func(p *Prog, r *Report) {
-		r.Engines = []string{"coeffid(COEFF-SWITCH,COEFF-TABLE)", "gate(GATE-SOLVE,GATE-CODEC)", "aliasflag(ARG-ALIAS)"}
+		r.Engines = []string{"coeffid(COEFF-SWITCH,COEFF-TABLE)", "gate(GATE-SOLVE,GATE-CODEC)", "aliasflag(ARG-ALIAS)", "ordguard(ORDER-GUARD)", "memorules(MEMO-EMIT,MEMO-KEY)"}
 		r.Explanation = "Narrow claim (DESIGN.md 4/C04). Decided by symbolic interpretation of the syntax tree: (COEFF-SWITCH) in every switch over a coefficient id (solver computeTerm / accumulateInto / divByCoeff in the 10 constraint packages, Groth16 setupABC.accumulate, mpcsetup Phase2.Initialize accumulateG1/G2) the effect of each special-id fast path (0, 1, 2, -1, -2) is identical, as a polynomial in the operand, the accumulator and the table coefficient, to the table path with the coefficient replaced by the value the id stands for; (COEFF-TABLE) the special slots of the compiler-side and solver-side coefficient tables hold exactly those values and AddCoeff maps each predicate to the matching id. A mismatch makes every circuit using that coefficient compute something else in the solver, the prover keys or the MPC keys. NOT decided: constant folding, expression merging, gate splitting, linear-expression compression, operand-kind independence (value-level; e.g. the known DivUnchecked(0,0) divergence) — these need execution or symbolic semantics of whole circuits. (GATE-SOLVE / GATE-CODEC) the Solve method of each specialised sparse gate (generic, mul, add, bool) accepts or assigns exactly what the gate decoded by DecompressSparseR1C — the gate the backend proves — states, so solving the compiled sparse system and the compiled constraint agree. (ARG-ALIAS) the alias-or-clone helper of the R1CS builder (mulConstant: works in place under a flag) is told to work in place only on builder-owned expressions — fresh wires, clones, builder buffers or, inductively, the running result of the same helper — in every calling context of the enclosing closure, so no API call rescales a variable the caller still holds."
 		r.RuleText = "one obligation per (switch, special id) and per table slot / predicate; nontrivial = polynomial effects compared"
 		r.Assumptions = []string{"gnark-crypto field element methods Add/Sub/Double/Neg/Mul/Div/Inverse/Set*/ScalarMultiplication have their arithmetic meaning"}
@@ -24,6 +24,7 @@ func init() {
 		r.RequireMin("ORDER-GUARD", 1)
 		RunMemoEmit(p, r)
 		RunMemoKey(p, r)
+		r.Explanation += " Also decided: (ORDER-GUARD) bits.toBinary compares a decomposition that covers the field with p-1 under every ordering of requested digits and field size; (MEMO-EMIT) on the not-found edge of every call that reserves a memo entry for the next instruction, every path adds an instruction before returning; (MEMO-KEY) the boolean table of the sparse builder is keyed by every field of the term."
 		r.RequireMin("MEMO-EMIT", 3)
 		r.RequireMin("MEMO-KEY", 1)
 		r.RequireMin("ARG-ALIAS", 5)
@@ -46,6 +47,7 @@ func init() {
 		RunSibling(p, r, "C06")
 		RunOutDef(p, r)
 		RunResetDef(p, r)
+		r.Explanation += " (RESET-DEF) Reset assigns, on every path, every field that Solve writes on a stateful blueprint."
 		r.RequireMin("RESET-DEF", 2)
 		r.RequireMin("OUT-DEF", 20)
 		if ee, err := newEffEngine(p, BuildCallGraph(p)); err != nil {
